@@ -334,27 +334,6 @@ def h0_is_zero(case):
     return gq.is_zero(gq.dec(case["H"][gen.key((0,) * case["nparam"])]))
 
 
-def d13_input(case):
-    """Input predicate of finding D13: SymPy input and a block selected for full diagonalisation (tuple, default
-    or mask form) whose unperturbed block is identically zero (all its energies are 0)."""
-    if case["fmt"] != "sympy":
-        return False
-    sub = case["sub"]
-    nb = max(sub) + 1
-    f = case["fully"]
-    if f is None:
-        blocks = [0] if nb == 1 else []
-    elif isinstance(f, list):
-        blocks = list(f)
-    else:
-        blocks = [int(b) for b in f]
-    E0 = gq.dec(case["H"][gen.key((0,) * case["nparam"])])
-    for b in blocks:
-        if all(E0[i][i].is_zero() for i in range(len(sub)) if sub[i] == b):
-            return True
-    return False
-
-
 def has_partial_mask(case):
     """mask mode with a block mask that eliminates some but not all off-diagonal pairs (the only situation in
     which the diagonal-block part of the "Yadj" series of algorithms.main is non-zero)."""
